@@ -76,6 +76,9 @@ def run(tier):
     out = tlc_out(ck, wd, "SimpleGlyphMC", "SimpleGlyphMC_%s.cfg" % tier, "simpleglyph", workers=8)
     strict(ck, "simple-glyph-points", "fv-total", ["c01", "simpleglyph", "--cases", out, "--trace-every", 100000, "--out", os.path.join(wd, "s.ndjson")])
     os.remove(out)
+    out = tlc_out(ck, wd, "DictMC", "DictMC_%s.cfg" % tier, "dict", workers=6)
+    strict(ck, "cff-dict-tokens", "fv-total", ["cs", "dict", "--cases", out, "--out", os.path.join(wd, "v.ndjson")])
+    os.remove(out)
     out = tlc_out(ck, wd, "ContextClosure", "ContextClosure.cfg", "layhostile", workers=2)
     strict(ck, "layout-hostile", "fv-total", ["c01", "layhostile", "--cases", out, "--out", os.path.join(wd, "r.ndjson")])
     os.remove(out)
